@@ -80,6 +80,7 @@ func newEngine(prog *ssa.Program) *Engine {
 	eng.registerHTTP()
 	eng.registerPairs()
 	eng.registerHTTPClient()
+	eng.registerLeak()
 	eng.registerStubs()
 	return eng
 }
